@@ -161,7 +161,10 @@ func (d *Database) FindEmitterSequenceGap(prefix vaa.VAAID) (resp []uint64, firs
 	if err = d.db.View(func(txn *badger.Txn) error {
 		it := txn.NewIterator(badger.DefaultIteratorOptions)
 		defer it.Close()
-		prefix := prefix.EmitterPrefixBytes()
+		// EmitterPrefixBytes ends in the target chain id without a separator: scanning with it
+		// would also visit the streams of every target chain whose decimal rendering starts with
+		// the same digits (2 vs 25, 255, ...). Keys continue with "/<sequence>", so include the "/".
+		prefix := append(prefix.EmitterPrefixBytes(), '/')
 
 		// Find all sequence numbers (the message IDs are ordered lexicographically,
 		// rather than numerically, so we need to sort them in-memory).
